@@ -44,13 +44,19 @@ func yieldStmt(r *rand.Rand) string {
 	return ""
 }
 
-func genGorCase(r *rand.Rand) gorCase {
+const gorFamilies = 15
+
+// genGorCase generates a case of the given family (a random one when family < 0).
+func genGorCase(r *rand.Rand, family int) gorCase {
+	if family < 0 {
+		family = r.Intn(gorFamilies)
+	}
 	n := 3 + r.Intn(8)
 	a, b := 2+r.Intn(5), r.Intn(9)
 	buf := []string{"", ", 1", ", 4"}[r.Intn(3)]
 	N, A, B := fmt.Sprint(n), fmt.Sprint(a), fmt.Sprint(b)
 	y := func() string { return yieldStmt(r) }
-	switch r.Intn(11) {
+	switch family {
 	case 0:
 		stages := 2 + r.Intn(3)
 		var sb strings.Builder
@@ -87,6 +93,25 @@ func genGorCase(r *rand.Rand) gorCase {
 	case 8:
 		k := 2 + r.Intn(4)
 		return gorCase{Name: "nested-goroutines-sum", Body: "total := make(chan int)\nfor i := 0; i < " + fmt.Sprint(k) + "; i++ {\n\tgo func(base int) {\n\t\tpart := make(chan int)\n\t\tgo func(x int) {\n\t\t\t" + y() + "\t\t\tpart <- x * " + A + "\n\t\t}(base)\n\t\tgo func(x, z int) {\n\t\t\tpart <- x + z\n\t\t}(base, " + B + ")\n\t\ttotal <- (<-part) + (<-part)\n\t}(i + 1)\n}\nt := 0\nfor i := 0; i < " + fmt.Sprint(k) + "; i++ {\n\tt += <-total\n}\nh.Print(t)\n"}
+	case 11:
+		// selects in sequence that reuse the case slots: a send at position 0 (or 1), then a receive at the same position
+		quitPos := r.Intn(2)
+		c1, c2 := "case req <- i*" + A + ":", "case <-quit:\n\t\th.Print(\"q\")"
+		d1, d2 := "case v := <-resp:\n\t\th.Print(v, \" \")", "case <-quit:\n\t\th.Print(\"q\")"
+		if quitPos == 0 {
+			c1, c2 = c2, c1
+			d1, d2 = d2, d1
+		}
+		return gorCase{Name: "select-slot-reuse", Body: "req := make(chan int" + buf + ")\nresp := make(chan int)\nquit := make(chan bool)\ngo func() {\n\tfor v := range req {\n\t\t" + y() + "\t\tresp <- v + " + B + "\n\t}\n}()\nfor i := 0; i < " + N + "; i++ {\n\tselect {\n\t" + c1 + "\n\t" + c2 + "\n\t}\n\tselect {\n\t" + d1 + "\n\t" + d2 + "\n\t}\n}\nclose(req)\nh.Print(\"end\")\n"}
+	case 12:
+		// a send statement, then a select whose first case is a receive; then a select with send and default
+		return gorCase{Name: "send-then-select-receive", Body: "a := make(chan int, 1)\nb := make(chan int, 1)\nt := 0\nfor i := 0; i < " + N + "; i++ {\n\ta <- i\n\tselect {\n\tcase v := <-a:\n\t\tt += v\n\tcase w := <-b:\n\t\tt += 100 * w\n\t}\n\tselect {\n\tcase b <- i:\n\tdefault:\n\t\tt += 1000\n\t}\n\tselect {\n\tcase v := <-b:\n\t\tt += v * " + A + "\n\tdefault:\n\t}\n}\nh.Print(t)\n"}
+	case 13:
+		// go statements of a native function in a loop: every goroutine must get its own arguments
+		return gorCase{Name: "go-native-in-loop", Body: "res := make(chan int, " + N + ")\nfor i := 0; i < " + N + "; i++ {\n\tgo h.Send(res, i*" + A + "+" + B + ")\n}\nt := 0\nfor i := 0; i < " + N + "; i++ {\n\tt += <-res\n}\nh.Print(t)\n"}
+	case 14:
+		// go of a native function mixed with plain calls of the same function
+		return gorCase{Name: "go-native-and-plain-calls", Body: "res := make(chan int, 2*" + N + ")\nfor i := 0; i < " + N + "; i++ {\n\tgo h.Send(res, i+" + B + ")\n\th.Send(res, 1000*i)\n\t" + y() + "}\nt := 0\nfor i := 0; i < 2*" + N + "; i++ {\n\tt += <-res\n}\nh.Print(t)\n"}
 	case 9:
 		return gorCase{Name: "buffered-semaphore", Body: "sem := make(chan bool, 2)\nres := make(chan int, " + N + ")\nfor i := 0; i < " + N + "; i++ {\n\tgo func(v int) {\n\t\tsem <- true\n\t\t" + y() + "\t\tres <- v * v\n\t\t<-sem\n\t}(i)\n}\nt := 0\nfor i := 0; i < " + N + "; i++ {\n\tt += <-res\n}\nh.Print(t, \" \", len(sem) <= 2, \" \", cap(res))\n"}
 	default:
@@ -109,6 +134,7 @@ var h hT
 func (hT) Print(a ...any)         { fmt.Print(a...) }
 func (hT) Sprint(a ...any) string { return fmt.Sprint(a...) }
 func (hT) Yield()                 { runtime.Gosched() }
+func (hT) Send(c chan int, v int) { c <- v }
 
 `
 
@@ -161,6 +187,7 @@ func runGorSource(src string) (out string, problem string) {
 		"Print":  func(a ...any) { mu.Lock(); fmt.Fprint(&sb, a...); mu.Unlock() },
 		"Sprint": func(a ...any) string { return fmt.Sprint(a...) },
 		"Yield":  func() { runtime.Gosched() },
+		"Send":   func(c chan int, v int) { c <- v },
 	}
 	prog, err := scriggo.Build(scriggo.Files{"main.go": []byte(src)},
 		&scriggo.BuildOptions{AllowGoStmt: true, Packages: native.Packages{"h": native.Package{Name: "h", Declarations: decls}}})
@@ -300,7 +327,11 @@ func registerGor() {
 			}
 		} else {
 			for i := 0; i < c.N; i++ {
-				cases = append(cases, genGorCase(c.Rng))
+				family := -1
+				if i < gorFamilies {
+					family = i // every family at least once
+				}
+				cases = append(cases, genGorCase(c.Rng, family))
 			}
 		}
 		if len(cases) == 0 {
